@@ -459,11 +459,9 @@ fn main() {
                     || term.clone(), || { let a = Array1::from_vec(xs.clone()); observe_fwd(&|| fwd(a.titer().vshift(n, None)), steps, 0) });
 
                 // vdiff / vpct_change on views
-                for v in [None, Some(0.5)] {
-                    // a non-null fill with n > 0 is defect #13 (property C13: x[i] - fill): values hidden there
-                    let m: u8 = if v.is_some() { 2 } else { 0 };
-                    let vterm = match v { None => "None".to_string(), Some(_) => "(Some (VZ 0))".to_string() };
-                    let term = format!("(obs {} (fw {}) (vdiff {} {} {}))", coq_nat(m as usize), coq_nat(steps), cz(n as i64), vterm, cl(&xs));
+                for v in [None, Some(-7.0)] {
+                    let m: u8 = 0;
+                    let term = format!("(obs 0 (fw {}) (vdiff {} {} {}))", coq_nat(steps), cz(n as i64), cov(v), cl(&xs));
                     em.case("exact", &tgb("vdiff"), &format!("vdiff(n={}, {:?}) on Vec {:?}", n, v, xs),
                         || term.clone(), || observe_fwd(&|| fwd(xs.vdiff(n, v)), steps, m));
                     if v.is_none() {
@@ -579,17 +577,9 @@ fn main() {
                         let steps = kth + 2;
                         let cls = if nvalid == kth + 1 { "n_eq" } else if nvalid < kth + 1 { "n_lt" } else { "n_gt" };
                         let tags = |f: &str| format!("fn={} len={} kth={} sort={} rev={} class={} nulls={}{}", f, len, kth, sort, rev, cls, mask_name(len, mask), nt(len));
-                        // vpartition(sort = true) with fewer than kth+1 elements is defect #12 of property C12
-                        // (returns len entries): only the hint-vs-yield relation is compared there
-                        if sort && nvalid <= kth + 1 && len != kth + 1 {
-                            em.case("exact", &(tags("vpartition") + " cmp=rel"), &format!("vpartition(kth={}, sort={}, rev={}) on {:?} [relative]", kth, sort, rev, xs),
-                                || format!("(zeros {})", coq_nat(2 * (steps + 1))),
-                                || observe_rel(&|| fwd(xs.vpartition(kth, sort, rev)), steps));
-                        } else {
-                            em.case("exact", &tags("vpartition"), &format!("vpartition(kth={}, sort={}, rev={}) on {:?}", kth, sort, rev, xs),
-                                || format!("(obs_ok 2 (fw {}) (vpartition {} {} {}))", coq_nat(steps), coq_nat(kth), coq_bool(sort), cl(&xs)),
-                                || observe_fwd(&|| fwd(xs.vpartition(kth, sort, rev)), steps, 2));
-                        }
+                        em.case("exact", &tags("vpartition"), &format!("vpartition(kth={}, sort={}, rev={}) on {:?}", kth, sort, rev, xs),
+                            || format!("(obs_ok 2 (fw {}) (vpartition {} {} {}))", coq_nat(steps), coq_nat(kth), coq_bool(sort), cl(&xs)),
+                            || observe_fwd(&|| fwd(xs.vpartition(kth, sort, rev)), steps, 2));
                         em.case("exact", &tags("varg_partition"), &format!("varg_partition(kth={}, sort={}, rev={}) on {:?}", kth, sort, rev, xs),
                             || format!("(obs_ok 2 (fw {}) (varg_partition {} {} {}))", coq_nat(steps), coq_nat(kth), coq_bool(sort), cl(&xs)),
                             || observe_fwd(&|| fwd(xs.varg_partition(kth, sort, rev)), steps, 2));
@@ -648,17 +638,17 @@ fn main() {
     // G. generators: Vec1Create::{range, linspace} (collected by the library through the raw collector)
     // =========================================================================================
     {
-        // f64 on the grid k/4 (exact arithmetic): range(a, b, step); step = 0 is excluded (infinite length)
+        // f64 on the grid k/4 (exact arithmetic): range(a, b, step), step = 0 included (empty since e1a8736)
         let q = |k: i64| k as f64 / 4.0;
         for ka in [0i64, 4, -6] {
             for d in -8i64..=12 {
-                for ks in [-6i64, -4, -2, -1, 1, 2, 4, 6] {
+                for ks in [-6i64, -4, -2, -1, 0, 1, 2, 4, 6] {
                     let kb = ka + d;
                     let term = format!("(collect_cells 0 (create (range_f {} {} {})))", cz(ka), cz(kb), cz(ks));
-                    let cls = if d * ks <= 0 { "empty" } else if d % ks == 0 { "divisible" } else { "ragged" };
+                    let cls = if ks == 0 { "step0" } else if d * ks <= 0 { "empty" } else if d % ks == 0 { "divisible" } else { "ragged" };
                     let desc = format!("Vec1Create::range(Some({}), {}, Some({}))", q(ka), q(kb), q(ks));
                     let run = |v: Vec<f64>| { let mut c = vec![Cell::Int(v.len() as i128)]; c.extend(v.iter().map(|x| Cell::F(x * 4.0))); c };
-                    em.case("exact", &format!("fn=range ty=f64 out=vec span={}{}", cls, if cls == "empty" { " nt=0" } else { "" }), &(desc.clone() + " -> Vec<f64>"), || term.clone(),
+                    em.case("exact", &format!("fn=range ty=f64 out=vec span={}{}", cls, if cls == "empty" || cls == "step0" { " nt=0" } else { "" }), &(desc.clone() + " -> Vec<f64>"), || term.clone(),
                         || finish(guarded(|| run(<Vec<f64> as Vec1Create<f64>>::range(Some(q(ka)), q(kb), Some(q(ks)))))));
                     if ka == 4 {
                         em.case("exact", &format!("fn=range ty=f64 out=deque span={}", cls), &(desc.clone() + " -> VecDeque<f64>"), || term.clone(),
@@ -671,20 +661,24 @@ fn main() {
                 }
             }
         }
-        // integers: only spans the step divides, in the direction of the step (the other regions are
-        // defect #22 of property C19: lost last element / wrapped negative length)
+        // integers (repaired by e1a8736): every span, divisible or not, either direction, step 0 included
+        // (step 0 towards a non-empty direction divides by zero: a panic in the model too)
         for a in [0i64, 2, -3] {
-            for st in [-3i64, -2, -1, 1, 2, 3] {
-                for m in 0..=4i64 {
-                    let b = a + st * m;
+            for st in [-3i64, -2, -1, 0, 1, 2, 3] {
+                for d in -5i64..=7 {
+                    let b = a + d;
                     let term = format!("(match range_i {} {} {} with Ok s => collect_cells 0 (create s) | Panic k => c_panic k end)", cz(a), cz(b), cz(st));
+                    let cls = if st == 0 { "step0" } else if d * st <= 0 { "empty" } else if d % st == 0 { "divisible" } else { "ragged" };
+                    let ntr = if cls == "empty" || cls == "step0" { " nt=0" } else { "" };
                     let run = |v: Vec<i128>| { let mut c = vec![Cell::Int(v.len() as i128)]; c.extend(v.iter().map(|x| Cell::Int(*x))); c };
-                    em.case("exact", &format!("fn=range ty=i32 out=vec len={}{}", m, nt(m as usize)), &format!("Vec::<i32>::range(Some({}), {}, Some({}))", a, b, st), || term.clone(),
+                    em.case("exact", &format!("fn=range ty=i32 out=vec span={}{}", cls, ntr), &format!("Vec::<i32>::range(Some({}), {}, Some({}))", a, b, st), || term.clone(),
                         || finish(guarded(|| run(<Vec<i32> as Vec1Create<i32>>::range(Some(a as i32), b as i32, Some(st as i32)).into_iter().map(|x| x as i128).collect()))));
-                    em.case("exact", &format!("fn=range ty=i64 out=vec len={}{}", m, nt(m as usize)), &format!("Vec::<i64>::range(Some({}), {}, Some({}))", a, b, st), || term.clone(),
+                    em.case("exact", &format!("fn=range ty=i64 out=vec span={}{}", cls, ntr), &format!("Vec::<i64>::range(Some({}), {}, Some({}))", a, b, st), || term.clone(),
                         || finish(guarded(|| run(<Vec<i64> as Vec1Create<i64>>::range(Some(a), b, Some(st)).into_iter().map(|x| x as i128).collect()))));
-                    if a >= 0 && st > 0 {
-                        em.case("exact", &format!("fn=range ty=usize out=vec len={}{}", m, nt(m as usize)), &format!("Vec::<usize>::range(Some({}), {}, Some({}))", a, b, st), || term.clone(),
+                    // usize with step 0 and b < a panics on `b - a` (underflow) before the division by zero: same
+                    // outcome class (a panic), different message; not generated
+                    if a >= 0 && b >= 0 && st >= 0 && !(st == 0 && b < a) {
+                        em.case("exact", &format!("fn=range ty=usize out=vec span={}{}", cls, ntr), &format!("Vec::<usize>::range(Some({}), {}, Some({}))", a, b, st), || term.clone(),
                             || finish(guarded(|| run(<Vec<usize> as Vec1Create<usize>>::range(Some(a as usize), b as usize, Some(st as usize)).into_iter().map(|x| x as i128).collect()))));
                     }
                 }
